@@ -462,6 +462,19 @@ func (li *localInst) observe() (string, string) {
 			continue // votes of later heights: monitors cover the first height only
 		}
 		val := idKey(v.BlockID)
+		if val != nilV && val != idKey(li.ids[0]) && val != idKey(li.ids[1]) {
+			// the only blocks that exist at this height are the two candidates and whatever the node proposed itself
+			own := false
+			for _, m := range n.Sent {
+				if pm, ok := m.(*cs.ProposalMessage); ok && pm.Proposal.Height == li.height && pm.Proposal.BlockPartsHeader.Equals(v.BlockID.PartsHeader) {
+					own = true
+				}
+			}
+			if !own {
+				return "L6:vote-for-a-block-nobody-proposed-at-this-height", fmt.Sprintf("the node signs a %s for %s at height %d round %d: neither candidate block nor its own proposal of this height (state carried over from another height?)",
+					map[byte]string{types.VoteTypePrevote: "prevote", types.VoteTypePrecommit: "precommit"}[v.Type], v.BlockID, v.Height, v.Round)
+			}
+		}
 		switch v.Type {
 		case types.VoteTypePrevote:
 			if k, w := li.soup.prevoteEnabled(self, v.Round, val); k != "" {
@@ -771,8 +784,10 @@ func localConfigs(r *vk.Run) []*localCfg {
 		equiv: true, maj23: true, split: true, depth: r.Pick(5, 7), maxSt: r.Pick(60000, 1500000), prefix: prefixes[2].pre, expect: prefixes[2].expect})
 	// timeouts that were superseded before they were delivered arrive late (the real ticker hands a fired timeout to a
 	// goroutine, which may deliver it after any number of newer events): from the start and from the locked state
-	out = append(out, &localCfg{name: fmt.Sprintf("eq4/self%d(non-proposer)/sym/late-timeouts/init", other), powers: eq, self: other, rounds: 2, sym: true,
-		late: true, depth: r.Pick(4, 6), maxSt: r.Pick(60000, 1500000), expect: "R0 S1 lock=- | "})
+	if !r.Quick() { // quick: the height-2 search below starts from an initial state with late timeouts too
+		out = append(out, &localCfg{name: fmt.Sprintf("eq4/self%d(non-proposer)/sym/late-timeouts/init", other), powers: eq, self: other, rounds: 2, sym: true,
+			late: true, depth: 6, maxSt: 1500000, expect: "R0 S1 lock=- | "})
+	}
 	out = append(out, &localCfg{name: fmt.Sprintf("eq4/self%d(non-proposer)/sym/late-timeouts/locked-A-r0", other), powers: eq, self: other, rounds: 2, sym: true,
 		late: true, depth: r.Pick(4, 6), maxSt: r.Pick(60000, 1500000), prefix: prefixes[2].pre, expect: prefixes[2].expect})
 	// height 2: everything a node carries across a height change (lock, valid block, vote sets, last commit, proposer
